@@ -344,7 +344,15 @@ var $select = comms => {
 
     var entries = [];
     var thisGoroutine = $curGoroutine;
-    var f = { $blk() { return this.selection; } };
+    var closedDuringSend = false;
+    var f = {
+        $blk() {
+            if (closedDuringSend) {
+                $throwRuntimeError("send on closed channel");
+            }
+            return this.selection;
+        }
+    };
     var removeFromQueues = () => {
         for (var i = 0; i < entries.length; i++) {
             var entry = entries[i];
@@ -369,7 +377,15 @@ var $select = comms => {
                     comm[0].$recvQueue.push(queueEntry);
                     break;
                 case 2: /* send */
-                    var queueEntry = () => {
+                    var queueEntry = closed => {
+                        if (closed) {
+                            // The channel was closed while this goroutine was blocked:
+                            // the send panics in the selecting goroutine once it resumes.
+                            closedDuringSend = true;
+                            removeFromQueues();
+                            $schedule(thisGoroutine);
+                            return;
+                        }
                         if (comm[0].$closed) {
                             $throwRuntimeError("send on closed channel");
                         }
